@@ -36,6 +36,7 @@ import (
 	"github.com/mgtv-tech/redis-GunYu/config"
 	"github.com/mgtv-tech/redis-GunYu/pkg/log"
 	usync "github.com/mgtv-tech/redis-GunYu/pkg/sync"
+	"github.com/mgtv-tech/redis-GunYu/pkg/vfdoubles"
 	"github.com/mgtv-tech/redis-GunYu/pkg/vfutil"
 )
 
@@ -310,6 +311,10 @@ type vf6Output struct {
 	got       []byte
 	readErr   string
 	ingested  bool
+	// failSnapshot: the snapshot replay "fails" (all bytes are read, then an
+	// error is returned as a failing target would cause): nothing is stored
+	failSnapshot bool
+	interrupted  bool
 }
 
 func (o *vf6Output) StartPoint(ctx context.Context, ids []string) (StartPoint, error) {
@@ -400,6 +405,12 @@ func (o *vf6Output) Send(ctx context.Context, reader ChannelReader) error {
 	}
 	if !o.ingested {
 		miss()
+	}
+	if o.failSnapshot && o.kind == "rdb" {
+		o.mu.Lock()
+		o.interrupted = true
+		o.mu.Unlock()
+		return fmt.Errorf("injected by the C06 harness: snapshot replay failed")
 	}
 	return nil
 }
@@ -677,13 +688,14 @@ func (h *vf6H) populate(c *vf6Case, ch Channel, w *vf6World) error {
 }
 
 type vf6Round struct {
-	delivered string // "stream" | "snapshot" | "none"
-	left      int64
-	size      int64
-	runId     string
-	final     int64
-	full      bool
-	after     vf6Case // cache fields describe the cache after the round
+	interrupted bool
+	delivered   string // "stream" | "snapshot" | "none"
+	left        int64
+	size        int64
+	runId       string
+	final       int64
+	full        bool
+	after       vf6Case // cache fields describe the cache after the round
 }
 
 func vf6Last(xs []string, def string) string {
@@ -693,10 +705,9 @@ func vf6Last(xs []string, def string) string {
 	return xs[len(xs)-1]
 }
 
-func (h *vf6H) round(c *vf6Case, inner Channel, replay map[string]interface{}) *vf6Round {
+func (h *vf6H) round(c *vf6Case, inner Channel, replay map[string]interface{}, real *vf6RealOut, truth *vf6Truth) *vf6Round {
 	s := h.sink
 	tag := "#T"
-	op := c.opLine(tag)
 	w := c.world()
 	src := c.src // copy of the parameters
 	src.w = w
@@ -704,6 +715,15 @@ func (h *vf6H) round(c *vf6Case, inner Channel, replay map[string]interface{}) *
 	h.ln.cur.Store(srcp)
 	ids := []string{src.id1, src.id2}
 	final := src.master + src.k
+	if real != nil {
+		// the stored position is whatever the real RedisOutput reads back
+		sp0, err := real.ro.StartPoint(context.Background(), ids)
+		if err != nil {
+			h.t.Fatalf("real StartPoint: %v", err)
+		}
+		c.sp = StartPoint{RunId: sp0.RunId, Offset: sp0.Offset}
+	}
+	op := c.opLine(tag)
 
 	// ---- q: the cache's query API before the round
 	q0, _ := inner.StartPoint(ids)
@@ -719,6 +739,11 @@ func (h *vf6H) round(c *vf6Case, inner Channel, replay map[string]interface{}) *
 	out := &vf6Output{sp: c.sp, final: final, proxy: proxy, patience: &h.patience}
 	ri := NewRedisInput(h.inCfg)
 	ri.SetOutput(out)
+	if real != nil {
+		real.rec = out
+		out.failSnapshot = real.failSnapshot
+		ri.SetOutput(real)
+	}
 	ri.SetChannel(proxy)
 	out.incr = func() usync.WaitChannel { return ri.StateNotify(SyncStateFullSynced) }
 	t0 := time.Now()
@@ -800,7 +825,7 @@ func (h *vf6H) round(c *vf6Case, inner Channel, replay map[string]interface{}) *
 
 	// ---- bytes
 	var bline string
-	res := &vf6Round{final: final, full: full, runId: out.runId, left: out.left, size: out.size}
+	res := &vf6Round{final: final, full: full, runId: out.runId, left: out.left, size: out.size, interrupted: out.interrupted}
 	first := out.got
 	if len(first) > 64 {
 		first = first[:64]
@@ -1006,6 +1031,31 @@ func (h *vf6H) round(c *vf6Case, inner Channel, replay map[string]interface{}) *
 		}
 	}
 
+	// ---- ground truth of the target's data (schedules with the real RedisOutput)
+	if truth != nil {
+		agrees := truth.id == src.id1 || (truth.id == src.id2 && truth.upto <= src.switchOff)
+		switch {
+		case res.delivered == "stream":
+			switch {
+			case truth.none:
+				s.Violate("stream-onto-empty-target", "log bytes delivered to a target that holds no snapshot", rp("snapshot"))
+			case truth.dirty:
+				s.Violate("stream-after-interrupted-snapshot", fmt.Sprintf("the last snapshot replay did not complete, yet the log of %s is continued from %d (stored position %s:%d)",
+					src.id1, out.left, c.sp.RunId, c.sp.Offset), rp("snapshot"))
+			case out.left != truth.upto || !agrees:
+				s.Violate("continue-other-history", fmt.Sprintf("the target holds history %s up to %d (switch offset %d); the log of %s is continued from %d (stored position %s:%d)",
+					truth.id, truth.upto, src.switchOff, src.id1, out.left, c.sp.RunId, c.sp.Offset), rp("snapshot"))
+			}
+			if int64(len(out.got)) == final-out.left && final > out.left {
+				*truth = vf6Truth{id: src.id1, upto: final}
+			}
+		case res.delivered == "snapshot" && out.interrupted:
+			truth.dirty, truth.none = true, false
+		case res.delivered == "snapshot":
+			*truth = vf6Truth{id: src.id1, upto: out.left}
+		}
+	}
+
 	// describe the cache after the round for a follow-up round
 	res.after = *c
 	res.after.cRun = arid
@@ -1025,6 +1075,171 @@ func (h *vf6H) round(c *vf6Case, inner Channel, replay map[string]interface{}) *
 	}
 	res.after.fresh = false
 	return res
+}
+
+// ---------------------------------------------------------------- schedules with the real RedisOutput
+
+// vf6Truth is what the target's data really is: history `id` applied up to
+// `upto` (none: nothing yet; dirty: a snapshot replay was interrupted).
+type vf6Truth struct {
+	none  bool
+	dirty bool
+	id    string
+	upto  int64
+}
+
+// vf6RealOut: StartPoint and SetRunId are the real RedisOutput's (checkpoint
+// bookkeeping on the shared target double); Send records the bytes and then
+// stores the position exactly where the real SendRdb / sendAof store it.
+type vf6RealOut struct {
+	ro           *RedisOutput
+	rec          *vf6Output
+	failSnapshot bool
+}
+
+func (o *vf6RealOut) StartPoint(ctx context.Context, ids []string) (StartPoint, error) {
+	sp, err := o.ro.StartPoint(ctx, ids)
+	o.rec.mu.Lock()
+	o.rec.spIds = append(o.rec.spIds, append([]string(nil), ids...))
+	o.rec.mu.Unlock()
+	return sp, err
+}
+func (o *vf6RealOut) SetRunId(ctx context.Context, id string) error {
+	o.rec.mu.Lock()
+	o.rec.setRunIds = append(o.rec.setRunIds, id)
+	o.rec.mu.Unlock()
+	return o.ro.SetRunId(ctx, id)
+}
+func (o *vf6RealOut) Close() {}
+func (o *vf6RealOut) Send(ctx context.Context, reader ChannelReader) error {
+	if err := o.rec.Send(ctx, reader); err != nil {
+		return err
+	}
+	bg := context.Background()
+	if !reader.IsAof() {
+		// SendRdb's last statement
+		return o.ro.setCheckpoint(bg, reader.RunId(), reader.Left(), config.Version)
+	}
+	if int64(len(o.rec.got)) == 0 {
+		return nil // nothing consumed: sendFuncOnce stores nothing
+	}
+	end := reader.Left() + int64(len(o.rec.got))
+	if o.ro.cfg.EnableResumeFromBreakPoint {
+		// sendCmdsBatch: run id fields + offset of the last command, under the reader's run id
+		return o.ro.setCheckpoint(bg, reader.RunId(), end, config.Version)
+	}
+	o.ro.cpGuard.Lock()
+	o.ro.checkpointInMem.Offset = end
+	o.ro.cpGuard.Unlock()
+	return nil
+}
+
+// vf6Bridge makes the in-memory target double reachable by address (newOutput
+// and UpdateCheckpoint dial the output by its configured address).
+type vf6Bridge struct {
+	ln  net.Listener
+	cur atomic.Pointer[vfdoubles.Target]
+}
+
+func vf6NewBridge() (*vf6Bridge, error) {
+	ln, err := net.Listen("tcp", "127.0.0.1:0")
+	if err != nil {
+		return nil, err
+	}
+	b := &vf6Bridge{ln: ln}
+	go func() {
+		for {
+			c, err := ln.Accept()
+			if err != nil {
+				return
+			}
+			tg := b.cur.Load()
+			if tg == nil {
+				c.Close()
+				continue
+			}
+			p := tg.Dial()
+			go func() { io.Copy(p, c); p.Close() }()
+			go func() { io.Copy(c, p); c.Close() }()
+		}
+	}()
+	return b, nil
+}
+
+// vf6Window: a schedule around a change of history.
+//
+//	kind "full-interrupted": the target follows history A up to X; the source
+//	  turns into B (failover with switch offset S, or unrelated) and answers
+//	  FULLRESYNC at O; the snapshot replay fails; the run restarts.
+//	kind "restart-rekey": the target follows A up to X; the source fails over
+//	  to B (switch offset S); the syncer restarts (newOutput) with the cache
+//	  lost / behind, then connects.
+type vf6Window struct {
+	kind     string
+	backend  string
+	resume   bool
+	failover bool  // B exposes A as its previous id
+	restart  bool  // full-interrupted: the syncer (output) is re-created before the last round
+	oA       int64 // A's offset at the first full sync
+	x        int64 // position the target reaches in A
+	s        int64 // switch offset (failover)
+	o        int64 // B's offset when the tool connects
+	k1       int64 // bytes B produces during the interrupted round
+	k2       int64 // bytes B produces in the last round
+	snap     int64
+	seedA    uint64
+	seedB    uint64
+}
+
+func (wd *vf6Window) String() string {
+	return fmt.Sprintf("window kind=%s backend=%s resume=%v failover=%v restart=%v oA=%d x=%d s=%d o=%d k1=%d k2=%d snap=%d seedA=%d seedB=%d",
+		wd.kind, wd.backend, wd.resume, wd.failover, wd.restart, wd.oA, wd.x, wd.s, wd.o, wd.k1, wd.k2, wd.snap, wd.seedA, wd.seedB)
+}
+
+func vf6ParseWindow(l string) (*vf6Window, error) {
+	wd := &vf6Window{}
+	f := strings.Fields(l)
+	if len(f) < 2 || f[0] != "window" {
+		return nil, fmt.Errorf("not a window line")
+	}
+	for _, kv := range f[1:] {
+		p := strings.SplitN(kv, "=", 2)
+		if len(p) != 2 {
+			return nil, fmt.Errorf("bad field %q", kv)
+		}
+		i64, _ := strconv.ParseInt(p[1], 10, 64)
+		switch p[0] {
+		case "kind":
+			wd.kind = p[1]
+		case "backend":
+			wd.backend = p[1]
+		case "resume":
+			wd.resume = p[1] == "true"
+		case "failover":
+			wd.failover = p[1] == "true"
+		case "restart":
+			wd.restart = p[1] == "true"
+		case "oA":
+			wd.oA = i64
+		case "x":
+			wd.x = i64
+		case "s":
+			wd.s = i64
+		case "o":
+			wd.o = i64
+		case "k1":
+			wd.k1 = i64
+		case "k2":
+			wd.k2 = i64
+		case "snap":
+			wd.snap = i64
+		case "seedA":
+			wd.seedA = uint64(i64)
+		case "seedB":
+			wd.seedB = uint64(i64)
+		}
+	}
+	return wd, nil
 }
 
 func vf6NewWait() usync.WaitCloser { return usync.NewWaitCloser(nil) }
@@ -1236,8 +1451,14 @@ func TestVerifC06(t *testing.T) {
 	}
 	defer ln.ln.Close()
 
+	bridge, err := vf6NewBridge()
+	if err != nil {
+		t.Fatal(err)
+	}
+	defer bridge.ln.Close()
+
 	// the input reads its limiter / listen port / crc flag from the global config
-	yml := fmt.Sprintf("input:\n  redis:\n    addresses: [\"%s\"]\noutput:\n  redis:\n    addresses: [\"127.0.0.1:1\"]\nchannel:\n  storer:\n    dirPath: %s\nlog:\n  level: panic\n",
+	yml := fmt.Sprintf("input:\n  redis:\n    addresses: [\"%s\"]\noutput:\n  redis:\n    addresses: [\""+bridge.ln.Addr().String()+"\"]\nchannel:\n  storer:\n    dirPath: %s\nlog:\n  level: panic\n",
 		ln.ln.Addr().String(), filepath.Join(tmp, "cfgdir"))
 	yp := filepath.Join(tmp, "cfg.yaml")
 	if err := os.WriteFile(yp, []byte(yml), 0o644); err != nil {
@@ -1283,7 +1504,7 @@ func TestVerifC06(t *testing.T) {
 			s.Count("src_" + srcTag)
 			cur := &c
 			for i := 0; i < rounds; i++ {
-				res := h.round(cur, ch, map[string]interface{}{"round": i})
+				res := h.round(cur, ch, map[string]interface{}{"round": i}, nil, nil)
 				if s.aborted {
 					break
 				}
@@ -1307,12 +1528,172 @@ func TestVerifC06(t *testing.T) {
 		}
 	}
 
+	// ---- schedules around a change of history, with the real RedisOutput
+	// (newOutput / StartPoint / SetRunId / setCheckpoint on the target double)
+	idOf := func(seed uint64, tag byte) string {
+		return strings.Repeat(string([]byte{tag}), 8) + fmt.Sprintf("%032x", seed)
+	}
+	runWindow := func(wd *vf6Window, srcTag string) {
+		for attempt := 0; ; attempt++ {
+			h.sink = &vf6Sink{}
+			s := h.sink
+			h.nCase++
+			dir := filepath.Join(tmp, fmt.Sprintf("w%d", h.nCase))
+			os.MkdirAll(dir, 0o777)
+			tg := vfdoubles.NewTarget()
+			tg.Lenient = true
+			bridge.cur.Store(tg)
+			*config.GetSyncerConfig().Output.Replay.ResumeFromBreakPoint = wd.resume
+			A, B := idOf(wd.seedA, 'a'), idOf(wd.seedB, 'b')
+			sy := &syncer{cfg: SyncerConfig{Input: h.inCfg, Output: *config.GetSyncerConfig().Output.Redis},
+				logger: log.WithLogger("[vf6] "), wait: usync.NewWaitCloser(nil)}
+			newOut := func(src vf6Source) *vf6RealOut {
+				h.ln.cur.Store(&src) // newOutput asks the source for its ids
+				ro, err := sy.newOutput()
+				if err != nil {
+					t.Fatalf("newOutput: %v", err)
+				}
+				return &vf6RealOut{ro: ro}
+			}
+			truth := &vf6Truth{none: true}
+			rpl := map[string]interface{}{"schedule": wd.String(), "round": 0}
+			base := &vf6Case{backend: wd.backend, logSize: 1 << 20, tokId: ""}
+			ch := h.newChannel(base, dir)
+
+			// history A alone: full sync at oA, then the stream up to x
+			srcA := vf6Source{id1: A, id2: vf6ZeroId, switchOff: -2, backlog: true, first: 1, blen: wd.oA, master: wd.oA, snapLen: wd.snap, capaId: true}
+			c := *base
+			c.src, c.s1, c.sb, c.s2, c.so = srcA, wd.seedA, 1, 2, 3
+			real := newOut(srcA)
+			res := h.round(&c, ch, rpl, real, truth)
+			step := 1
+			next := func(src vf6Source, failover bool) *vf6Case {
+				n := res.after
+				n.src = src
+				if src.id1 == A {
+					n.s1, n.sb, n.s2, n.so = wd.seedA, 1, 2, 3
+				} else if failover {
+					n.s1, n.sb, n.s2, n.so = wd.seedB, wd.seedA, wd.seedA, 3
+				} else {
+					n.s1, n.sb, n.s2, n.so = wd.seedB, 1, 2, wd.seedA
+				}
+				rpl = map[string]interface{}{"schedule": wd.String(), "round": step}
+				step++
+				return &n
+			}
+			if !s.aborted {
+				srcA.k = wd.x - wd.oA
+				res = h.round(next(srcA, false), ch, rpl, real, truth)
+			}
+			srcB := vf6Source{id1: B, id2: vf6ZeroId, switchOff: -2, backlog: true, first: 1, blen: wd.o, master: wd.o, snapLen: wd.snap, capaId: true}
+			if wd.failover {
+				srcB.id2, srcB.switchOff = A, wd.s
+			}
+			switch {
+			case s.aborted:
+			case wd.kind == "full-interrupted":
+				srcB.k = wd.k1
+				real.failSnapshot = true
+				res = h.round(next(srcB, wd.failover), ch, rpl, real, truth)
+				real.failSnapshot = false
+				if s.aborted {
+					break
+				}
+				srcB.master, srcB.blen, srcB.k = wd.o+wd.k1, wd.o+wd.k1, wd.k2
+				if wd.restart {
+					// process restart: the output is re-created; a memory cache is gone, a disk cache reopened
+					ch.Close()
+					ch = h.newChannel(base, dir)
+					real = newOut(srcB)
+					if wd.backend == "m" {
+						res.after.cRun, res.after.tokId, res.after.hasRdb, res.after.hasAof = "", "", false, false
+					}
+				}
+				res = h.round(next(srcB, wd.failover), ch, rpl, real, truth)
+				if !s.aborted {
+					srcB.master, srcB.blen, srcB.k = res.final, res.final, 7
+					res = h.round(next(srcB, wd.failover), ch, rpl, real, truth)
+				}
+			case wd.kind == "restart-rekey":
+				// the syncer is restarted towards the new master (typology change)
+				srcB.k = wd.k2
+				ch.Close()
+				if wd.restart || wd.backend == "m" {
+					// cache lost (memory channel, or another instance taking over)
+					dir2 := dir + "-2"
+					os.MkdirAll(dir2, 0o777)
+					defer os.RemoveAll(dir2)
+					ch = h.newChannel(base, dir2)
+					res.after.cRun, res.after.tokId, res.after.hasRdb, res.after.hasAof = "", "", false, false
+				} else {
+					ch = h.newChannel(base, dir)
+				}
+				real = newOut(srcB)
+				res = h.round(next(srcB, true), ch, rpl, real, truth)
+				if !s.aborted {
+					srcB.master, srcB.blen, srcB.k = res.final, res.final, 7
+					res = h.round(next(srcB, true), ch, rpl, real, truth)
+				}
+			}
+			ch.Close()
+			os.RemoveAll(dir)
+			if s.aborted && attempt < 3 {
+				h.s.Count("aborted_attempts_repeated")
+				continue
+			}
+			s.Count("src_" + srcTag)
+			s.Count("window_" + wd.kind + map[bool]string{true: "_resume", false: "_inmem"}[wd.resume])
+			s.commit(h)
+			return
+		}
+	}
+	genWindow := func() *vf6Window {
+		wd := &vf6Window{kind: "full-interrupted", backend: "d", resume: r.Bool(), failover: r.Chance(2, 3), restart: r.Chance(1, 3),
+			snap: int64(r.Range(1, 200)), seedA: uint64(r.Range(1, 99999)), seedB: uint64(r.Range(1, 99999))}
+		if r.Bool() {
+			wd.backend = "m"
+		}
+		if r.Chance(1, 3) {
+			wd.kind, wd.failover = "restart-rekey", true
+		}
+		wd.oA = int64(r.Range(1, 400))
+		wd.x = wd.oA + int64(r.Range(1, 300))
+		wd.s = wd.x - int64(r.Range(-20, 120)) // mostly: the old master was ahead of the new one
+		if wd.s < 0 {
+			wd.s = 0
+		}
+		lo := wd.s
+		if !wd.failover {
+			lo = int64(r.Intn(int(wd.x) + 50))
+		}
+		wd.o = lo + int64(r.Intn(int(vf6Clamp(wd.x-lo))+40))
+		wd.k1 = int64(r.Intn(int(vf6Clamp(wd.x-wd.o)) + 60))
+		wd.k2 = int64(r.Intn(80))
+		return wd
+	}
+
 	for _, l := range vfutil.Corpus("C06") {
+		if strings.HasPrefix(l, "window ") {
+			wd, err := vf6ParseWindow(l)
+			if err != nil {
+				t.Fatalf("corpus line: %v: %s", err, l)
+			}
+			runWindow(wd, "corpus")
+			continue
+		}
 		c, err := vf6ParseCase(l)
 		if err != nil {
 			t.Fatalf("corpus line: %v: %s", err, l)
 		}
 		runCase(c, "corpus", 1)
+	}
+	if rp := os.Getenv("VERIF_REPLAY_CASE"); strings.HasPrefix(rp, "window ") {
+		wd, err := vf6ParseWindow(rp)
+		if err != nil {
+			t.Fatal(err)
+		}
+		runWindow(wd, "replay")
+		return
 	}
 	if rp := os.Getenv("VERIF_REPLAY_CASE"); rp != "" {
 		c, err := vf6ParseCase(rp)
@@ -1327,6 +1708,10 @@ func TestVerifC06(t *testing.T) {
 		if len(s.Viol) >= 30 {
 			s.Count("stopped_after_30_violations")
 			break // the failing inputs are found; no need to keep a broken build running
+		}
+		if i%8 == 7 {
+			runWindow(genWindow(), "generated")
+			continue
 		}
 		c := vf6GenCase(r)
 		rounds := 1
